@@ -2,6 +2,7 @@ package progen
 
 import (
 	"fmt"
+	"go/token"
 	"strings"
 
 	"pgregory.net/rapid"
@@ -14,7 +15,7 @@ func (t *Type) HasExtPrivate() bool {
 			return false
 		}
 		for _, f := range x.Decl.Fields {
-			if strings.ToLower(f.Name[:1]) == f.Name[:1] {
+			if !token.IsExported(f.Name) {
 				return true
 			}
 		}
